@@ -146,3 +146,48 @@ Definition kept_ok (supplied : option hist) (afters : list (option hist * bool))
 Definition call_kept_ok (tol : Q) (pol : unknown_policy) (vocab : list Z) (c : call_obs)
     (supplied : option hist) (afters : list (option hist * bool)) : bool :=
   call_ok tol pol vocab c && kept_ok supplied afters.
+
+(* ---- every candidate scored ALONE (added in the round-3 fixer round) ----
+   `picks` are candidates of the base list, `singles` the answers of the one-item calls made with the same query object:
+   each lists exactly its item and carries the score the base call gave to that item. *)
+Definition singles_ok (tol : Q) (base : obs) (picks : list Z) (singles : list obs) : bool :=
+  all2 (fun i o => aligned_b [i] o && consistent_b tol base o) picks singles.
+
+(* ---- a kernel evaluated in blocks ----
+   Scorers that bound their working set (FlexMF-style batches, k-NN similarity blocks) cut the KNOWN numbers into blocks of
+   at most `b`, evaluate the kernel per block and lay the answers end to end; the scatter through the mask is unchanged.
+   `chunks_fuel` is total for every b (b = 0 included: the fuel runs out and the rest is one block). *)
+Fixpoint chunks_fuel (fuel b : nat) (ks : list nat) : list (list nat) :=
+  match fuel with
+  | O => [ks]
+  | S fu => match ks with [] => [] | _ => firstn b ks :: chunks_fuel fu b (skipn b ks) end
+  end.
+Definition chunks (b : nat) (ks : list nat) : list (list nat) := chunks_fuel (List.length ks) b ks.
+Definition blocked (b : nat) (kernel : list nat -> list (option Q)) (ks : list nat) : list (option Q) :=
+  flat_map kernel (chunks b ks).
+(* the defective variant: block answers written by POSITION IN THE KNOWN LIST into the full-length score vector
+   (scores[start:end] = block) instead of through the mask *)
+Fixpoint write_at (start : nat) (vals : list (option Q)) (scores : list (option Q)) : list (option Q) :=
+  match start, scores with
+  | _, [] => []
+  | O, s :: r => match vals with v :: vs => v :: write_at O vs r | [] => s :: r end
+  | S k, s :: r => s :: write_at k vals r
+  end.
+Definition positional_scatter {F} (vocab : list Z) (kernel : list nat -> list (option Q)) (items : list (entry F)) : list (scored F) :=
+  let nums := numbers vocab items in
+  with_scores items (write_at 0 (kernel (known nums)) (map (fun _ => None) items)).
+
+(* ---- integer configuration fields of the scorers that the generator sets to small values ----
+   mirrors harness/props/c04.py KNOBS (compared on every run); Gen/C04_sites.v `config_int_fields` is what the source has *)
+Definition explored_int_fields : list (string * string) :=
+  [ ("ItemKNNConfig", "max_nbrs"); ("ItemKNNConfig", "min_nbrs"); ("ItemKNNConfig", "save_nbrs"); ("ItemKNNConfig", "block_size")
+  ; ("UserKNNConfig", "max_nbrs"); ("UserKNNConfig", "min_nbrs")
+  ; ("ALSConfig", "embedding_size"); ("ALSConfig", "epochs")
+  ; ("FunkSVDConfig", "features"); ("FunkSVDConfig", "epochs")
+  ; ("BiasedSVDConfig", "embedding_size"); ("BiasedSVDConfig", "n_iter")
+  ; ("FlexMFConfigBase", "embedding_size"); ("FlexMFConfigBase", "batch_size"); ("FlexMFConfigBase", "epochs")
+  ; ("FlexMFImplicitConfig", "negative_count") ]%string.
+(* components the harness cannot drive (hpfrec is not installed: HPF is covered by the sites table only) *)
+Definition undriven_int_fields : list (string * string) := [ ("HPFConfig", "embedding_size") ]%string.
+Definition field_eqb (a b : string * string) : bool := String.eqb (fst a) (fst b) && String.eqb (snd a) (snd b).
+Definition int_field_explored (f : string * string) : bool := existsb (field_eqb f) (explored_int_fields ++ undriven_int_fields).
